@@ -381,10 +381,8 @@ def negotiated(trace, at):
     """The protocol version negotiated before event `at` (1-based), by the monitor's rule."""
     ver = trace['ver0']
     for x in trace['ev'][:at - 1]:
-        if x['e'] == 'ver':
+        if x['e'] == 'ver':          # only a fetch negotiates; unsolicited answers are ignored (repair 11c63c8)
             ver = x['v']
-        elif x['e'] == 'plat' and x['ch'] == 1 and len(x['d']) >= 2 and x['d'][0] == 0:
-            ver = x['d'][1]
     return ver
 
 
@@ -399,7 +397,6 @@ def _execute(steps):
     ev = []
     link = RecordingLink(ev)
     cf.link = link
-    cf.platform._callback = lambda: None
     tr = {'ver0': int(cf.platform.get_protocol_version()), 'xmode0': bool(cf.commander._x_mode), 'ev': ev}
     ncall = 0
     for si, st in enumerate(steps):
@@ -1660,12 +1657,13 @@ def main(tier, seed, replay=None):
     k = next(i for i in range(len(sers) - 1) if sers[i]['pk'] != sers[i + 1]['pk'])
     sers[k]['pk'] = copy.deepcopy(sers[k + 1]['pk'])
     t5['tag'] = 'binding:late-packet-carries-the-next-command'
-    # a recording with PLATFORM-port traffic: one stray packet turned into a protocol-version answer for the other
-    # version -- the commands after it were encoded for the version really negotiated
-    t6 = copy.deepcopy(next(t for t in p_traces if id(t) not in bad_ids and any(e['e'] == 'plat' for e in t['ev'])))
-    pe = next(e for e in t6['ev'] if e['e'] == 'plat' and len(e['d']) >= 2 and not (e['ch'] == 1 and e['d'][0] == 0))
-    pe['ch'], pe['d'] = 1, [0, pe['d'][1]]
-    t6['tag'] = 'binding:stray-packet-recorded-as-version-answer'
+    # a recording with PLATFORM-port traffic in which the negotiation is recorded with the version on the other
+    # side of the switches -- the commands after it were encoded for the version really negotiated
+    t6 = copy.deepcopy(next(t for t in p_traces if id(t) not in bad_ids and any(e['e'] == 'plat' for e in t['ev'])
+                            and any(e['e'] == 'ver' and e['v'] in (7, 10) for e in t['ev'])))
+    pe = next(e for e in t6['ev'] if e['e'] == 'ver' and e['v'] in (7, 10))
+    pe['v'] = 7 if pe['v'] == 10 else 10
+    t6['tag'] = 'binding:negotiation-recorded-with-the-other-version'
     sens += [t1, t2, t3, t4, t5, t6]
     sbad, sdrift = judge(out, sens, 'mutants and corrupted recordings', count=False)
     rej, drf, tot = {}, {}, {}
